@@ -71,7 +71,7 @@ def run_case(case, note):
     return mode, n, strings
 
 
-@PROP.given('structured', lambda tier: structured_case(), quick=1200, thorough=48000, shards_quick=8)
+@PROP.given('structured', lambda tier: structured_case(), quick=4000, thorough=48000, shards_quick=8)
 def structured(case, note):
     mode, n, strings = run_case(case, note)
     fallback = False
@@ -90,7 +90,7 @@ def structured(case, note):
     'strings': st.just(None), 'shipped': st.sampled_from(['mexStringFile', None]),
     'data': st.one_of(st.binary(max_size=31), st.binary(min_size=32, max_size=200),
                       st.binary(max_size=64).map(lambda b: b'\x02\x20\x01\x42FANS        \x00\x00\x00\x00' + b)),
-    'n_generated_entries': st.just(0), 'flawed': st.just(True)}), quick=800, thorough=30000, shards_quick=8)
+    'n_generated_entries': st.just(0), 'flawed': st.just(True)}), quick=2400, thorough=30000, shards_quick=8)
 def raw_bytes(case, note):
     mode, n, _ = run_case(case, note)
     note.nontrivial = len(case['data']) > 0
